@@ -51,6 +51,9 @@ type Burst struct {
 	Follow     string     `json:"follow,omitempty"` // "" | cancel | run
 	Bystanders int        `json:"bystanders,omitempty"`
 	Reps       int        `json:"reps,omitempty"`
+	// Callers: "done" = every RunJob / CancelJob of the burst (lanes, sequential phase, follow-up) is made with
+	// a CALLER context that is already cancelled.  The model ignores it; the laws hold whatever it is.
+	Callers string `json:"callers,omitempty"`
 }
 
 type BLane struct {
@@ -147,6 +150,9 @@ func normaliseBurst(b Burst) Burst {
 	if b.Bystanders > 4 {
 		b.Bystanders = 4
 	}
+	if b.Callers != "done" && b.Callers != "expired" {
+		b.Callers = ""
+	}
 	return b
 }
 
@@ -208,6 +214,15 @@ func burstBody(b Burst, st *bshared) {
 		}
 	}
 	counters := make([]atomic.Int64, nSched+1)
+	callCtx, callRelease := callerCtx(rootCtx, b.Callers)
+	defer callRelease()
+	// an error outside the scheduler's set reads as a call that did not return a result of the model
+	bcode := func(err error) string {
+		if c := codeOf(err); c != "Foreign" {
+			return c
+		}
+		return "Hung"
+	}
 	do := func(jctx context.Context, op string, id int) string {
 		switch op {
 		case "ctx":
@@ -227,9 +242,9 @@ func burstBody(b Burst, st *bshared) {
 			}
 			return codeOf(svc.ScheduleJob(jctx, "c02", jobName, t0.Add(ms(b.Due)), f))
 		case "cancel":
-			return codeOf(svc.CancelJob(rootCtx, jobName))
+			return bcode(svc.CancelJob(callCtx, jobName))
 		case "run":
-			return codeOf(svc.RunJob(rootCtx, jobName))
+			return bcode(svc.RunJob(callCtx, jobName))
 		}
 		return "Hung"
 	}
@@ -361,9 +376,9 @@ func burstBody(b Burst, st *bshared) {
 	follow := "None"
 	switch b.Follow {
 	case "cancel":
-		follow = strip(codeOf(svc.CancelJob(rootCtx, jobName)))
+		follow = strip(bcode(svc.CancelJob(callCtx, jobName)))
 	case "run":
-		follow = strip(codeOf(svc.RunJob(rootCtx, jobName)))
+		follow = strip(bcode(svc.RunJob(callCtx, jobName)))
 	}
 	synctest.Wait()
 	tick()
@@ -664,6 +679,11 @@ func genBurst(r *Rand) (Burst, []string) {
 		tags = append(tags, "burst:periodic")
 	} else {
 		tags = append(tags, "burst:oneoff")
+	}
+	// drawn last: the bursts of a seed are what they were, one in four with dead caller contexts
+	if r.Chance(1, 4) {
+		b.Callers = []string{"done", "expired"}[r.Intn(2)]
+		tags = append(tags, "burst:callers-"+b.Callers)
 	}
 	return b, tags
 }
